@@ -5,6 +5,8 @@ import FeatModel.Lemmas.C07Control
 import FeatModel.Lemmas.C07Krylov
 import FeatModel.Lemmas.C07Krylov2
 import FeatModel.Model.Solver.BiCGStab
+import FeatModel.Model.Solver.Session
+import FeatModel.Lemmas.C07Session
 import FeatModel.Lemmas.C07Vec
 /-!
 # C07 — iterative solvers report their status truthfully
@@ -19,7 +21,7 @@ from is the norm of the TRUE filtered residual `F(b − A x)` of the returned it
 filter mask, preconditioner function (linear or not, failing or not), configuration and start vector; the solver
 loops terminate with a terminal status (fuel suffices).
 
-Part 3: the same for PMR, PCR (needs the additional linearity law `LawfulLin`, because `q_k = F A p_k` is updated by
+Part 3: the same for PMR, PCGNR, PCR (needs the additional linearity law `LawfulLin`, because `q_k = F A p_k` is updated by
 recurrence) and BiCGStab (including its half-step exits).  `C07.success_without_defect_calc_witness` exhibits the point
 excluded by the hypothesis `calcDef = true` (open finding c07-edge:F3).
 
@@ -32,23 +34,23 @@ section control
 variable {α : Type} [Mul α] [LE α] [LT α] [DecidableLE α] [DecidableLT α]
 
 /-- `_set_initial_defect` returns `aborted`, `success` or `progress`, resets the counters and stores the defect -/
-theorem C07.initial_total (c : Config α) (fin : Bool) (d : α) :
-    ((setInitialDefect c fin d).1 = .aborted ∨ (setInitialDefect c fin d).1 = .success ∨
-      (setInitialDefect c fin d).1 = .progress) ∧
-    (setInitialDefect c fin d).2 =
+theorem C07.initial_total (c : Config α) (prev : State α) (fin : Bool) (d : α) :
+    ((setInitialDefect c prev fin d).1 = .aborted ∨ (setInitialDefect c prev fin d).1 = .success ∨
+      (setInitialDefect c prev fin d).1 = .progress) ∧
+    (setInitialDefect c prev fin d).2 =
       { defInit := d, defCur := d, defPrev := d, numIter := 0, numStag := 0, curFin := fin } := by
-  have := setInitial_spec c fin d _ _ (Prod.mk.eta (p := setInitialDefect c fin d)).symm
+  have := setInitial_spec c prev fin d _ _ (Prod.mk.eta (p := setInitialDefect c prev fin d)).symm
   exact ⟨this.2.2.2.2, this.1⟩
 
 /-- success without iterating: the initial defect is finite and below `tol_abs_low` or at most `eps²` -/
-theorem C07.success_initial (c : Config α) (fin : Bool) (d : α) (s : State α)
-    (h : setInitialDefect c fin d = (.success, s)) : fin = true ∧ (d < c.tolAbsLow ∨ d ≤ c.eps2) :=
-  (setInitial_spec c fin d _ _ h).2.2.1.1 rfl
+theorem C07.success_initial (c : Config α) (prev : State α) (fin : Bool) (d : α) (s : State α)
+    (h : setInitialDefect c prev fin d = (.success, s)) : fin = true ∧ (d < c.tolAbsLow ∨ d ≤ c.eps2) :=
+  (setInitial_spec c prev fin d _ _ h).2.2.1.1 rfl
 
 /-- a non-finite initial defect is reported as `aborted`, and only that -/
-theorem C07.aborted_initial (c : Config α) (fin : Bool) (d : α) (s : State α) (st : Status)
-    (h : setInitialDefect c fin d = (st, s)) : st = .aborted ↔ fin = false :=
-  (setInitial_spec c fin d _ _ h).2.1
+theorem C07.aborted_initial (c : Config α) (prev : State α) (fin : Bool) (d : α) (s : State α) (st : Status)
+    (h : setInitialDefect c prev fin d = (st, s)) : st = .aborted ↔ fin = false :=
+  (setInitial_spec c prev fin d _ _ h).2.1
 
 /-- `success` after `_set_new_defect`: the stored defect meets the configured tolerances, is not diverged,
     at least `min_iter` iterations were made, and the stored defect is the new one whenever it was computed -/
@@ -141,9 +143,9 @@ theorem C07.min_iter_respected (c : Config α) (s s' : State α) (fin : Bool) (d
   | stagnated => have := (hs.2.2.2.2.1 rfl).2.2.2.2.2.2.1; omega
 
 /-- no control step ever returns `undefined` -/
-theorem C07.status_never_undefined (c : Config α) (s : State α) (fin : Bool) (d : α) :
+theorem C07.status_never_undefined (c : Config α) (prev s : State α) (fin : Bool) (d : α) :
     (setNewDefect c s fin d).1 ≠ .undefined ∧ (updateDefect c s fin d).1 ≠ .undefined ∧
-      (setInitialDefect c fin d).1 ≠ .undefined := by
+      (setInitialDefect c prev fin d).1 ≠ .undefined := by
   refine ⟨?_, ?_, ?_⟩
   · have h : setNewDefect c s fin d = ((setNewDefect c s fin d).1, (setNewDefect c s fin d).2) := rfl
     unfold setNewDefect at h
@@ -151,7 +153,7 @@ theorem C07.status_never_undefined (c : Config α) (s : State α) (fin : Bool) (
   · have h : updateDefect c s fin d = ((updateDefect c s fin d).1, (updateDefect c s fin d).2) := rfl
     unfold updateDefect at h
     exact (analyse_spec c _ _ _ _ h).2.2.2.2.2.2
-  · rcases (C07.initial_total c fin d).1 with e | e | e <;> rw [e] <;> simp
+  · rcases (C07.initial_total c prev fin d).1 with e | e | e <;> rw [e] <;> simp
 
 /-- a step that asks for another iteration has made fewer than `max(min_iter, max_iter)` iterations: every solver
     loop `while(status == progress)` terminates -/
@@ -183,8 +185,9 @@ theorem C07.stagRun_spec (c : Config α) (tr : List α) (k : Nat) (hk : k ≤ st
 /-- run level: when a complete control run (initial defect, then one step per defect while `progress`) ends with
     `stagnated`, stagnation control is on and the last `min_stag_iter` defects of the trace of `_def_cur` values all
     stagnated — for both `_set_new_defect` (`upd = false`) and `_update_defect` (`upd = true`) -/
-theorem C07.stagnated_sound (c : Config α) (upd : Bool) (ds : List (Bool × α)) (sts : List Status) (s : State α)
-    (tr : List α) (h : runControl c upd ds = (sts, some (s, tr))) (hlast : sts.getLast? = some .stagnated) :
+theorem C07.stagnated_sound (c : Config α) (upd : Bool) (prev : State α) (ds : List (Bool × α)) (sts : List Status)
+    (s : State α)
+    (tr : List α) (h : runControl c upd prev ds = (sts, some (s, tr))) (hlast : sts.getLast? = some .stagnated) :
     0 < c.minStag ∧ c.minStag ≤ stagRun c tr ∧ tr.head? = some s.defCur := by
   cases ds with
   | nil => simp [runControl] at h
@@ -192,16 +195,16 @@ theorem C07.stagnated_sound (c : Config α) (upd : Bool) (ds : List (Bool × α)
     obtain ⟨fin, d⟩ := a
     simp only [runControl, Prod.mk.injEq, Option.some.injEq] at h
     obtain ⟨hsts, hfin⟩ := h
-    have hini := setInitial_spec c fin d _ _ (Prod.mk.eta (p := setInitialDefect c fin d)).symm
-    by_cases hp : (setInitialDefect c fin d).1 = .progress
+    have hini := setInitial_spec c prev fin d _ _ (Prod.mk.eta (p := setInitialDefect c prev fin d)).symm
+    by_cases hp : (setInitialDefect c prev fin d).1 = .progress
     · rw [hp] at hsts hfin
-      have hinv0 : StagInv c (setInitialDefect c fin d).2 [(setInitialDefect c fin d).2.defCur] := by
+      have hinv0 : StagInv c (setInitialDefect c prev fin d).2 [(setInitialDefect c prev fin d).2.defCur] := by
         rw [hini.1]
         exact ⟨rfl, fun _ => rfl, Nat.zero_le _⟩
-      have hrest : (feed c upd .progress (setInitialDefect c fin d).2 [(setInitialDefect c fin d).2.defCur] ds).1.getLast?
+      have hrest : (feed c upd .progress (setInitialDefect c prev fin d).2 [(setInitialDefect c prev fin d).2.defCur] ds).1.getLast?
           = some .stagnated := by
         rw [← hsts] at hlast
-        cases hl : (feed c upd .progress (setInitialDefect c fin d).2 [(setInitialDefect c fin d).2.defCur] ds).1 with
+        cases hl : (feed c upd .progress (setInitialDefect c prev fin d).2 [(setInitialDefect c prev fin d).2.defCur] ds).1 with
         | nil => rw [hl] at hlast; simp at hlast
         | cons b l => rw [hl] at hlast; simpa [List.getLast?_cons_cons] using hlast
       have hinv := feed_inv c upd ds _ _ hinv0 _ hrest (Or.inr rfl)
@@ -236,8 +239,8 @@ theorem C07.norm_is_shared_sqrt {n : Nat} (v : RVec n) : vnorm v = FeatModel.Pro
     made the status is judged from a defect that is the norm `ρ` of the TRUE filtered residual `F(b − A x)` of the
     returned iterate (whenever that defect was computed, `calcDef`): `success` ⇒ `ρ` meets the tolerances, `max_iter` ⇒
     limits reached and not converged, `diverged` ⇒ `ρ` exceeds a divergence limit, `stagnated` ⇒ stagnation facts -/
-theorem C07.pcg_correct_sound (S : Sys V α) (hl : Lawful S) (c : Config α) (x0 b : V) (res : Result V α)
-    (h : pcgCorrect S c x0 b = some res) :
+theorem C07.pcg_correct_sound (S : Sys V α) (hl : Lawful S) (c : Config α) (prev : State α) (x0 b : V) (res : Result V α)
+    (h : pcgCorrect S c prev x0 b = some res) :
     res.status ≠ .undefined ∧ res.status ≠ .progress ∧ res.st.defInit = S.nrm (resid S b x0) ∧
     (res.status ≠ .aborted →
       (res.st.numIter = 0 → res.x = x0 ∧ res.status = .success ∧
@@ -254,7 +257,7 @@ theorem C07.pcg_correct_sound (S : Sys V α) (hl : Lawful S) (c : Config α) (x0
           c.minStag ≤ res.st.numStag ∧ ¬ Converged c (S.nrm (resid S b x0)) res.st.defCur ∧
           ¬ Diverged c (S.nrm (resid S b x0)) res.st.defCur ∧ c.minIter ≤ res.st.numIter ∧
           res.st.numIter < c.maxIter))) := by
-  have hs := pcgIntern_spec S hl c b x0 _ res rfl h
+  have hs := pcgIntern_spec S hl c prev b x0 _ res rfl h
   refine solveSound_of S c b x0 _ res ⟨hs.1, hs.2.1, hs.2.2.1, ?_⟩
   rcases hs.2.2.2 with hA | hB
   · exact Or.inl hA
@@ -262,66 +265,66 @@ theorem C07.pcg_correct_sound (S : Sys V α) (hl : Lawful S) (c : Config α) (x0
 
 /-- the property's main clause for PCG in one line: `success` after at least one iteration ⇒ the true filtered
     residual of the returned iterate meets the configured absolute and relative tolerances -/
-theorem C07.pcg_success_true_residual (S : Sys V α) (hl : Lawful S) (c : Config α) (x0 b : V) (res : Result V α)
-    (h : pcgCorrect S c x0 b = some res) (hs : res.status = .success) (hit : 0 < res.st.numIter)
+theorem C07.pcg_success_true_residual (S : Sys V α) (hl : Lawful S) (c : Config α) (prev : State α) (x0 b : V) (res : Result V α)
+    (h : pcgCorrect S c prev x0 b = some res) (hs : res.status = .success) (hit : 0 < res.st.numIter)
     (hc : calcDef c res.st.numIter = true) :
     S.nrm (resid S b res.x) ≤ c.tolAbs ∧
       (S.nrm (resid S b res.x) ≤ c.tolRel * S.nrm (resid S b x0) ∨ S.nrm (resid S b res.x) ≤ c.tolAbsLow) := by
-  have := (C07.pcg_correct_sound S hl c x0 b res h).2.2.2 (by rw [hs]; simp)
+  have := (C07.pcg_correct_sound S hl c prev x0 b res h).2.2.2 (by rw [hs]; simp)
   have h2 := this.2 hit
   rw [← h2.1 hc]
   exact (h2.2.1 hs).1
 
 /-- the same, instantiated for the system the driver executes: no hypotheses left besides the run itself -/
 theorem C07.pcg_rat_success_true_residual {n : Nat} (A : RMat n) (mask : Vector Bool n)
-    (pre : Option (RMat n × Nat)) (c : Config Rat) (x0 b : RVec n) (res : Result (RVec n) Rat)
-    (h : pcgCorrect (ratSys A mask pre) c x0 b = some res) (hs : res.status = .success)
+    (pre : Option (RMat n × Nat)) (c : Config Rat) (prev : State Rat) (x0 b : RVec n) (res : Result (RVec n) Rat)
+    (h : pcgCorrect (ratSys A mask pre) c prev x0 b = some res) (hs : res.status = .success)
     (hit : 0 < res.st.numIter) (hc : calcDef c res.st.numIter = true) :
     vnorm (maskF mask (vaxpy b (matVec A res.x) (-1))) ≤ c.tolAbs ∧
       (vnorm (maskF mask (vaxpy b (matVec A res.x) (-1))) ≤
           c.tolRel * vnorm (maskF mask (vaxpy b (matVec A x0) (-1))) ∨
         vnorm (maskF mask (vaxpy b (matVec A res.x) (-1))) ≤ c.tolAbsLow) :=
-  C07.pcg_success_true_residual (ratSys A mask pre) (C07.ratSys_lawful A mask pre) c x0 b res h hs hit hc
+  C07.pcg_success_true_residual (ratSys A mask pre) (C07.ratSys_lawful A mask pre) c prev x0 b res h hs hit hc
 
 /-- PCG `apply()` ignores any start vector (it has none in the model: the harness passes garbage) and equals
     `correct()` from the zero vector whenever the right-hand side is a filtered defect vector -/
-theorem C07.pcg_apply_eq_correct_zero (S : Sys V α) (hl : Lawful S) (c : Config α) (b : V) (hb : S.Fd b = b) :
-    pcgApply S c b = pcgCorrect S c S.ops.zero b := by
+theorem C07.pcg_apply_eq_correct_zero (S : Sys V α) (hl : Lawful S) (c : Config α) (prev : State α) (b : V) (hb : S.Fd b = b) :
+    pcgApply S c prev b = pcgCorrect S c prev S.ops.zero b := by
   unfold pcgApply pcgCorrect
   rw [hl.resid_zero, hb]
 
 /-- Richardson `correct()`: the same soundness statement; no law about the matrix, filter or preconditioner is needed,
     because the defect is recomputed from the iterate in every iteration -/
-theorem C07.rich_correct_sound (S : Sys V α) (c : Config α) (omega : α) (x0 b : V) (res : Result V α)
-    (h : richCorrect S c omega x0 b = some res) :
+theorem C07.rich_correct_sound (S : Sys V α) (c : Config α) (prev : State α) (omega : α) (x0 b : V) (res : Result V α)
+    (h : richCorrect S c prev omega x0 b = some res) :
     SolveSound c x0 (S.nrm (resid S b x0)) (S.nrm (resid S b res.x)) res := by
-  have hs := richIntern_spec S c omega b x0 _ res h
+  have hs := richIntern_spec S c prev omega b x0 _ res h
   exact solveSound_of S c b x0 _ res hs
 
 /-- Richardson `success` after at least one iteration ⇒ the true filtered residual meets the tolerances -/
-theorem C07.rich_success_true_residual (S : Sys V α) (c : Config α) (omega : α) (x0 b : V) (res : Result V α)
-    (h : richCorrect S c omega x0 b = some res) (hs : res.status = .success) (hit : 0 < res.st.numIter)
+theorem C07.rich_success_true_residual (S : Sys V α) (c : Config α) (prev : State α) (omega : α) (x0 b : V) (res : Result V α)
+    (h : richCorrect S c prev omega x0 b = some res) (hs : res.status = .success) (hit : 0 < res.st.numIter)
     (hc : calcDef c res.st.numIter = true) :
     S.nrm (resid S b res.x) ≤ c.tolAbs ∧
       (S.nrm (resid S b res.x) ≤ c.tolRel * S.nrm (resid S b x0) ∨ S.nrm (resid S b res.x) ≤ c.tolAbsLow) := by
-  have := (C07.rich_correct_sound S c omega x0 b res h).2.2.2 (by rw [hs]; simp)
+  have := (C07.rich_correct_sound S c prev omega x0 b res h).2.2.2 (by rw [hs]; simp)
   have h2 := this.2 hit
   rw [← h2.1 hc]
   exact (h2.2.1 hs).1
 
 /-- Richardson `apply()`: initial defect is `‖b‖` (no start vector), later defects are true residuals -/
-theorem C07.rich_apply_sound (S : Sys V α) (c : Config α) (omega : α) (b : V) (res : Result V α)
-    (h : richApply S c omega b = some res) :
+theorem C07.rich_apply_sound (S : Sys V α) (c : Config α) (prev : State α) (omega : α) (b : V) (res : Result V α)
+    (h : richApply S c prev omega b = some res) :
     SolveSound c S.ops.zero (S.nrm b) (S.nrm (resid S b res.x)) res := by
-  have hs := richIntern_spec S c omega b _ _ res h
+  have hs := richIntern_spec S c prev omega b _ _ res h
   exact solveSound_of S c b _ _ res hs
 
 /-- PCG `apply()` on a filtered right-hand side: the soundness statement with initial defect `‖b‖` -/
-theorem C07.pcg_apply_sound (S : Sys V α) (hl : Lawful S) (c : Config α) (b : V) (hb : S.Fd b = b)
-    (res : Result V α) (h : pcgApply S c b = some res) :
+theorem C07.pcg_apply_sound (S : Sys V α) (hl : Lawful S) (c : Config α) (prev : State α) (b : V) (hb : S.Fd b = b)
+    (res : Result V α) (h : pcgApply S c prev b = some res) :
     SolveSound c S.ops.zero (S.nrm b) (S.nrm (resid S b res.x)) res := by
   have hr : b = resid S b S.ops.zero := by rw [hl.resid_zero, hb]
-  have hs := pcgIntern_spec S hl c b S.ops.zero b res hr h
+  have hs := pcgIntern_spec S hl c prev b S.ops.zero b res hr h
   refine solveSound_of S c b _ _ res ⟨hs.1, hs.2.1, hs.2.2.1, ?_⟩
   rcases hs.2.2.2 with hA | hB
   · exact Or.inl hA
@@ -334,49 +337,68 @@ theorem C07.ratSys_lawfulLin {n : Nat} (A : RMat n) (mask : Vector Bool n) (pre 
 
 /-- PCR `correct()`: recurrence residual = true filtered residual in every iteration, for every preconditioner
     function; same soundness statement as PCG (`SolveSound`, spelled out in `C07.pcg_correct_sound`) -/
-theorem C07.pcr_correct_sound (S : Sys V α) (hl : LawfulLin S) (c : Config α) (x0 b : V) (res : Result V α)
-    (h : pcrCorrect S c x0 b = some res) :
+theorem C07.pcr_correct_sound (S : Sys V α) (hl : LawfulLin S) (c : Config α) (prev : State α) (x0 b : V) (res : Result V α)
+    (h : pcrCorrect S c prev x0 b = some res) :
     SolveSound c x0 (S.nrm (resid S b x0)) (S.nrm (resid S b res.x)) res :=
-  solveSound_of S c b x0 _ res (pcrIntern_spec S hl c b x0 _ res rfl h)
+  solveSound_of S c b x0 _ res (pcrIntern_spec S hl c prev b x0 _ res rfl h)
 
 /-- PCR `apply()` on a filtered right-hand side -/
-theorem C07.pcr_apply_sound (S : Sys V α) (hl : LawfulLin S) (c : Config α) (b : V) (hb : S.Fd b = b)
-    (res : Result V α) (h : pcrApply S c b = some res) :
+theorem C07.pcr_apply_sound (S : Sys V α) (hl : LawfulLin S) (c : Config α) (prev : State α) (b : V) (hb : S.Fd b = b)
+    (res : Result V α) (h : pcrApply S c prev b = some res) :
     SolveSound c S.ops.zero (S.nrm b) (S.nrm (resid S b res.x)) res := by
   have hr : b = resid S b S.ops.zero := by rw [hl.toLawful.resid_zero, hb]
-  exact solveSound_of S c b _ _ res (pcrIntern_spec S hl c b S.ops.zero b res hr h)
+  exact solveSound_of S c b _ _ res (pcrIntern_spec S hl c prev b S.ops.zero b res hr h)
 
 /-- PCR `success` after at least one iteration ⇒ the true filtered residual meets the tolerances -/
-theorem C07.pcr_success_true_residual (S : Sys V α) (hl : LawfulLin S) (c : Config α) (x0 b : V)
-    (res : Result V α) (h : pcrCorrect S c x0 b = some res) (hs : res.status = .success)
+theorem C07.pcr_success_true_residual (S : Sys V α) (hl : LawfulLin S) (c : Config α) (prev : State α) (x0 b : V)
+    (res : Result V α) (h : pcrCorrect S c prev x0 b = some res) (hs : res.status = .success)
     (hit : 0 < res.st.numIter) (hc : calcDef c res.st.numIter = true) :
     S.nrm (resid S b res.x) ≤ c.tolAbs ∧
       (S.nrm (resid S b res.x) ≤ c.tolRel * S.nrm (resid S b x0) ∨ S.nrm (resid S b res.x) ≤ c.tolAbsLow) := by
-  have := (C07.pcr_correct_sound S hl c x0 b res h).2.2.2 (by rw [hs]; simp)
+  have := (C07.pcr_correct_sound S hl c prev x0 b res h).2.2.2 (by rw [hs]; simp)
   have h2 := this.2 hit
   rw [← h2.1 hc]
   exact (h2.2.1 hs).1
 
 /-- PMR `correct()` / `apply()`: recurrence residual = true filtered residual in every iteration, for every
     preconditioner function (statement `SolveSound`, spelled out in `C07.pcg_correct_sound`) -/
-theorem C07.pmr_correct_sound (S : Sys V α) (hl : Lawful S) (c : Config α) (x0 b : V) (res : Result V α)
-    (h : pmrCorrect S c x0 b = some res) :
+theorem C07.pmr_correct_sound (S : Sys V α) (hl : Lawful S) (c : Config α) (prev : State α) (x0 b : V) (res : Result V α)
+    (h : pmrCorrect S c prev x0 b = some res) :
     SolveSound c x0 (S.nrm (resid S b x0)) (S.nrm (resid S b res.x)) res :=
-  solveSound_of S c b x0 _ res (pmrIntern_spec S hl c b x0 _ res rfl h)
+  solveSound_of S c b x0 _ res (pmrIntern_spec S hl c prev b x0 _ res rfl h)
 
-theorem C07.pmr_apply_sound (S : Sys V α) (hl : Lawful S) (c : Config α) (b : V) (hb : S.Fd b = b)
-    (res : Result V α) (h : pmrApply S c b = some res) :
+theorem C07.pmr_apply_sound (S : Sys V α) (hl : Lawful S) (c : Config α) (prev : State α) (b : V) (hb : S.Fd b = b)
+    (res : Result V α) (h : pmrApply S c prev b = some res) :
     SolveSound c S.ops.zero (S.nrm b) (S.nrm (resid S b res.x)) res := by
   have hr : b = resid S b S.ops.zero := by rw [hl.resid_zero, hb]
-  exact solveSound_of S c b _ _ res (pmrIntern_spec S hl c b S.ops.zero b res hr h)
+  exact solveSound_of S c b _ _ res (pmrIntern_spec S hl c prev b S.ops.zero b res hr h)
 
 /-- PMR `success` after at least one iteration ⇒ the true filtered residual meets the tolerances -/
-theorem C07.pmr_success_true_residual (S : Sys V α) (hl : Lawful S) (c : Config α) (x0 b : V)
-    (res : Result V α) (h : pmrCorrect S c x0 b = some res) (hs : res.status = .success)
+theorem C07.pmr_success_true_residual (S : Sys V α) (hl : Lawful S) (c : Config α) (prev : State α) (x0 b : V)
+    (res : Result V α) (h : pmrCorrect S c prev x0 b = some res) (hs : res.status = .success)
     (hit : 0 < res.st.numIter) (hc : calcDef c res.st.numIter = true) :
     S.nrm (resid S b res.x) ≤ c.tolAbs ∧
       (S.nrm (resid S b res.x) ≤ c.tolRel * S.nrm (resid S b x0) ∨ S.nrm (resid S b res.x) ≤ c.tolAbsLow) := by
-  have := (C07.pmr_correct_sound S hl c x0 b res h).2.2.2 (by rw [hs]; simp)
+  have := (C07.pmr_correct_sound S hl c prev x0 b res h).2.2.2 (by rw [hs]; simp)
+  have h2 := this.2 hit
+  rw [← h2.1 hc]
+  exact (h2.2.1 hs).1
+
+/-- PCGNR `correct()` (CG on the normal equations; one function `prec` serves as left and right preconditioner call
+    sequence): recurrence residual = true filtered residual in every iteration, for every preconditioner function and
+    every "transposed" operator `At` (the identity does not even use `At = Aᵀ`) -/
+theorem C07.pcgnr_correct_sound (S : Sys V α) (hl : Lawful S) (c : Config α) (prev : State α) (x0 b : V)
+    (res : Result V α) (h : pcgnrCorrect S c prev x0 b = some res) :
+    SolveSound c x0 (S.nrm (resid S b x0)) (S.nrm (resid S b res.x)) res :=
+  solveSound_of S c b x0 _ res (pcgnrIntern_spec S hl c prev b x0 _ res rfl h)
+
+/-- PCGNR `success` after at least one iteration ⇒ the true filtered residual meets the tolerances -/
+theorem C07.pcgnr_success_true_residual (S : Sys V α) (hl : Lawful S) (c : Config α) (prev : State α) (x0 b : V)
+    (res : Result V α) (h : pcgnrCorrect S c prev x0 b = some res) (hs : res.status = .success)
+    (hit : 0 < res.st.numIter) (hc : calcDef c res.st.numIter = true) :
+    S.nrm (resid S b res.x) ≤ c.tolAbs ∧
+      (S.nrm (resid S b res.x) ≤ c.tolRel * S.nrm (resid S b x0) ∨ S.nrm (resid S b res.x) ≤ c.tolAbsLow) := by
+  have := (C07.pcgnr_correct_sound S hl c prev x0 b res h).2.2.2 (by rw [hs]; simp)
   have h2 := this.2 hit
   rw [← h2.1 hc]
   exact (h2.2.1 hs).1
@@ -396,7 +418,7 @@ theorem C07.bicg_correct_sound (S : Sys V α) (hl : Lawful S) (c : Config α) (s
          (0 < res.st.numIter ∧
             ((res.st.defCur = S.nrm (resid S b res.x) ∧
                 ((res.status = .success ∧ Converged c res.st.defInit res.st.defCur ∧
-                    ¬ Diverged c res.st.defInit res.st.defCur) ∨
+                    ¬ Diverged c res.st.defInit res.st.defCur ∧ c.minIter ≤ res.st.numIter) ∨
                  (res.status = .diverged ∧ Diverged c res.st.defInit res.st.defCur))) ∨
              FinalStep S c b res)))) :=
   bicgIntern_spec S hl c st0 b x0 _ res rfl h
@@ -412,12 +434,25 @@ theorem C07.bicg_success_true_residual (S : Sys V α) (hl : Lawful S) (c : Confi
   rcases hcase with ⟨hz, _⟩ | ⟨_, hhalf | hfin⟩
   · omega
   · obtain ⟨hcur, hst⟩ := hhalf
-    rcases hst with ⟨_, hconv, _⟩ | ⟨hdv, _⟩
+    rcases hst with ⟨_, hconv, _, _⟩ | ⟨hdv, _⟩
     · rw [← hcur, ← hd0]; exact hconv
     · rw [hs] at hdv; cases hdv
   · have hf := finalStep_facts S c b res hfin
     rw [← hf.1 hc, ← hd0]
     exact (hf.2.1 hs).1
+
+/-- BiCGStab honours `min_iter` on every `success` return that made iterations — full steps (through
+    `_analyse_defect`) and, since the fix of finding c07-edge:F2, half-step exits as well -/
+theorem C07.bicg_success_min_iter (S : Sys V α) (hl : Lawful S) (c : Config α) (st0 : State α) (x0 b : V)
+    (res : Result V α) (h : bicgCorrect S c st0 x0 b = some res) (hs : res.status = .success)
+    (hit : 0 < res.st.numIter) : c.minIter ≤ res.st.numIter := by
+  obtain ⟨_, hcase⟩ := (C07.bicg_correct_sound S hl c st0 x0 b res h).2.2 (by rw [hs]; simp)
+  rcases hcase with ⟨hz, _⟩ | ⟨_, hhalf | hfin⟩
+  · omega
+  · rcases hhalf.2 with ⟨_, _, _, hmin⟩ | ⟨hdv, _⟩
+    · exact hmin
+    · rw [hs] at hdv; cases hdv
+  · exact ((finalStep_facts S c b res hfin).2.1 hs).2.2
 
 /-- BiCGStab `apply()` = `correct()` from the zero vector on a filtered right-hand side -/
 theorem C07.bicg_apply_eq_correct_zero (S : Sys V α) (hl : Lawful S) (c : Config α) (st0 : State α) (b : V)
@@ -425,14 +460,94 @@ theorem C07.bicg_apply_eq_correct_zero (S : Sys V α) (hl : Lawful S) (c : Confi
   unfold bicgApply bicgCorrect
   rw [hl.resid_zero, hb]
 
+/-- at every return point of BiCGStab that is not a preconditioner failure, the stored defect `_def_cur` is the norm of
+    the true filtered residual of the RETURNED iterate: for half-step exits unconditionally (the iterate is updated
+    before the test), for full steps whenever the defect was computed -/
+theorem C07.bicg_returned_defect (S : Sys V α) (hl : Lawful S) (c : Config α) (st0 : State α) (x0 b : V)
+    (res : Result V α) (h : bicgCorrect S c st0 x0 b = some res) (hna : res.status ≠ .aborted)
+    (hc : res.st.numIter = 0 ∨ calcDef c res.st.numIter = true) :
+    res.st.defCur = S.nrm (resid S b res.x) := by
+  simp only [bicgCorrect] at h
+  have hsp := bicgIntern_spec S hl c st0 b x0 _ res rfl h
+  obtain ⟨hd0, hcase⟩ := hsp.2.2 hna
+  rcases hcase with ⟨hz, hx, _, _⟩ | ⟨hpos, hhalf | hfin⟩
+  · -- no iteration: the state is the one `_set_initial_defect` wrote
+    simp only [bicgIntern] at h
+    split at h
+    · simp only [Option.some.injEq] at h; subst h; exact absurd rfl hna
+    · rcases hsi : setInitialDefect c st0 true (S.nrm (resid S b x0)) with ⟨status, st⟩
+      rw [hsi] at h
+      have hst := (setInitial_spec c st0 true _ _ _ hsi).1
+      simp only at h
+      split at h
+      · simp only [Option.some.injEq] at h
+        subst h
+        subst hst
+        rfl
+      · have := bicgLoop_spec S hl c b _ _ x0 _ _ _ _ st _ _ res rfl (by subst hst; simp)
+          (by subst hst; simp [fuelOf]) h
+        have := (this.2.2.2 hna).1
+        omega
+  · exact hhalf.1
+  · rcases hc with hc | hc
+    · omega
+    · exact (finalStep_facts S c b res hfin).1 hc
+
 end solvers
+
+section sessions
+variable {V α : Type} [Mul α] [Div α] [Neg α] [Zero α] [One α] [LE α] [LT α] [DecidableEq α] [DecidableLE α]
+  [DecidableLT α]
+
+/-- `_set_initial_defect` overwrites every convergence-control member (`_def_init/_def_cur/_def_prev/_num_iter/
+    _num_stag_iter`): its result does not depend on the state the previous solve left -/
+theorem C07.initial_defect_resets_state (c : Config α) (prev1 prev2 : State α) (fin : Bool) (d : α) :
+    setInitialDefect c prev1 fin d = setInitialDefect c prev2 fin d :=
+  setInitial_indep c prev1 prev2 fin d
+
+/-- PCG, Richardson, PCR, PMR: the complete outcome of one `apply()`/`correct()` (status, iterate, counters, defects,
+    defect history) is the same for ANY two control states of the solver object — whatever status, iteration count,
+    stagnation count and defects the previous solve ended with -/
+theorem C07.solve_independent_of_history (k : Kind) (hk : k ≠ .bicgstab) (S : Sys V α) (c : Config α) (omega : α)
+    (prev1 prev2 : State α) (isApply : Bool) (x0 b : V) :
+    solveOne k S c omega prev1 isApply x0 b = solveOne k S c omega prev2 isApply x0 b :=
+  solveOne_indep k hk S c omega prev1 prev2 isApply x0 b
+
+/-- session level ("repeating a solve on the same solver object gives the same result"): a session on ONE persistent
+    solver object (the function the driver executes against one real solver object) equals running every solve on a
+    brand-new object, for every sequence of solves and every initial state -/
+theorem C07.session_independent (k : Kind) (hk : k ≠ .bicgstab) (S : Sys V α) (c : Config α) (omega : α)
+    (prev st : State α) (l : List (Bool × V × V)) :
+    runSession k S c omega prev l = independentSession k S c omega st l :=
+  runSession_indep k hk S c omega st l prev
+
+/-- BiCGStab: status and returned iterate never depend on the history -/
+theorem C07.bicg_status_independent_of_history (S : Sys V α) (c : Config α) (omega : α) (prev1 prev2 : State α)
+    (isApply : Bool) (x0 b : V) :
+    (solveOne .bicgstab S c omega prev1 isApply x0 b).map (fun res => (res.status, res.x)) =
+      (solveOne .bicgstab S c omega prev2 isApply x0 b).map (fun res => (res.status, res.x)) := by
+  cases isApply
+  · simp only [solveOne, Bool.false_eq_true, ↓reduceIte, bicgCorrect]
+    exact bicgIntern_indep_status S c prev1 prev2 _ _
+  · simp only [solveOne, ↓reduceIte, bicgApply]
+    exact bicgIntern_indep_status S c prev1 prev2 _ _
+
+/-- BiCGStab sessions are independent of the history as long as the preconditioner does not fail on an initial defect
+    (if it does, BiCGStab returns `aborted` BEFORE `_set_initial_defect`, so `get_num_iter()`/`get_def_*()` still show
+    the previous solve: open finding c07-edge:F6, which is why this theorem is `_partial`) -/
+theorem C07.bicg_session_independent_partial (S : Sys V α) (c : Config α) (omega : α) (prev st : State α)
+    (l : List (Bool × V × V)) (h : ∀ e ∈ l, S.prec 0 (startDefect S e.1 e.2.1 e.2.2) ≠ none) :
+    runSession .bicgstab S c omega prev l = independentSession .bicgstab S c omega st l :=
+  runSession_indep_bicg S c omega st l h prev
+
+end sessions
 
 /-- the point excluded by `calcDef = true` (open finding c07-edge:F3), by evaluation: Richardson on the 1×1 system
     `x = 1` with damping 3 (the error doubles per step), `witnessCfg`: `min_iter = max_iter = 2`, `tol_rel = 1` and the default
     `skip_defect_calc`: the defect is never recomputed (`calcDef = false`), the run returns `success` after 2 iterations
     with stored defect 1, but the true residual norm of the returned iterate `x = −3` is 4 > tol_rel·def_init = 1 -/
 theorem C07.success_without_defect_calc_witness :
-    (richApply (ratSys (n := 1) #v[#v[1]] #v[false] none) witnessCfg 3 #v[1]).map
+    (richApply (ratSys (n := 1) #v[#v[1]] #v[false] none) witnessCfg freshState 3 #v[1]).map
       (fun r => (r.status, r.st.numIter, r.x.toList, r.st.defCur,
         vnorm (maskF #v[false] (vaxpy #v[1] (matVec #v[#v[1]] r.x) (-1))), calcDef witnessCfg r.st.numIter))
       = some (.success, 2, [-3], 1, 4, false) ∧
